@@ -17,6 +17,12 @@ def instance(R, pid, tier, seed, bl, sl, bs, which, tag):
     deltalib.pipeline_obligations(ctx, R, prover, pid, bl, sl, bs, which)
 
 
+def roundtrip(R, pid, tier, seed, bl, sl, bs, engine, tag):
+    from . import patchlib
+    ctx = deltalib.Ctx()
+    patchlib.roundtrip_obligations(ctx, R, Prover(R, tier, cross_order=("z3-4.8.12", "cvc5")), engine, bl, sl, bs)
+
+
 def validate_job(R, pid, tier, seed, count, tag, engine="sync"):
     ctx = deltalib.Ctx()
     deltalib.validate(ctx, R, seed, count, engine=engine)
@@ -45,6 +51,12 @@ def run(R, tier, seed):
         for which in kinds:
             jobs.append(("obligations.c01", "instance", dict(pid="C01", tier=tier, seed=seed, bl=bl, sl=sl, bs=bs, which=which,
                                                              tag="%s[bl=%d,sl=%d,bs=%d]" % (which, bl, sl, bs))))
+    rts = [(4, 4, 2), (6, 6, 3), (3, 6, 2)] if tier == "quick" else [(4, 4, 2), (6, 6, 3), (3, 6, 2), (6, 3, 2), (0, 3, 2), (5, 5, 1), (8, 8, 4), (7, 7, 3)]
+    for (bl, sl, bs) in rts:
+        for eng in ("sync", "async"):
+            jobs.append(("obligations.c01", "roundtrip", dict(pid="C01", tier=tier, seed=seed, bl=bl, sl=sl, bs=bs, engine=eng,
+                                                              tag="%s-roundtrip[bl=%d,sl=%d,bs=%d]" % (eng, bl, sl, bs))))
+    R.extra["roundtrip_instances"] = [list(x) for x in rts]
     # biggest instances first so the pool drains evenly
     jobs.sort(key=lambda j: -(j[2].get("bl", 0) + j[2].get("sl", 0)) * (2 if j[2].get("which") == "C01-agree" else 1))
     R.extra["instances"] = [list(x) for x in insts]
